@@ -1444,3 +1444,28 @@ def attr_memo(check: Check, repo: Repo, mods: list[Module], rule: str = "ATTR-ME
                          f"the stored value also depends on {sorted(missing)}, which the hit test `{unparse(guard.test)}` ignores: "
                          f"the memo on `{holder}` answers for a different {sorted(missing)[0]}")
     check.note(attr_memos=n)
+
+
+# -- C02: the two readers of a resolver's source object agree on what a mapping is -------------------
+
+
+def source_siblings(check: Check, repo: Repo, rule: str = "SOURCE-SIBLINGS") -> None:
+    check.rule(
+        rule,
+        "default_field_resolver and get_typename (used by default_type_resolver) read the same source objects: "
+        "both take the key-lookup branch for exactly the same class test, isinstance(<source>, Mapping); if one "
+        "narrows it (dict) a MappingProxyType / ChainMap record still resolves its fields by key but its "
+        "__typename by attribute, and the abstract position becomes null",
+    )
+    sites = [("execution.executor", "default_field_resolver"), ("execution.executor", "get_typename")]
+    classes = {}
+    for mn, q in sites:
+        fn = repo.func(mn, q)
+        p0 = fn.args.args[0].arg
+        tests = [c for c in walk_body(fn) if isinstance(c, ast.Call) and call_name(c) == "isinstance" and len(c.args) == 2 and unparse(c.args[0]) == p0]
+        classes[q] = (fn, sorted({unparse(t.args[1]) for t in tests}))
+    want = classes["default_field_resolver"][1]
+    for q, (fn, got) in classes.items():
+        ok = got == want and bool(got)
+        check.ob(rule, fn, f"{q}: key lookup for isinstance(source, {', '.join(got) or '?'})", ok,
+                 "same class test as the sibling" if ok else f"sibling default_field_resolver tests {want}, this one {got}")
